@@ -15,12 +15,17 @@
 /* ---- merge / dupsort callbacks ---- */
 struct mstate { int mode; uint8_t *failkey; size_t lfk; long calls; };   /* mode 0 = token-multiset union, 1 = additionally fail whenever called for key failkey, 2 = longest common prefix */
 
+/* the closure handed to the dupsort callback must be the one configured for it (and not, say, the merge callback's) */
+#define VF_DS_MAGIC 0x44535f4f4bull
+struct dsclos { uint64_t magic; };
+static struct dsclos vf_ds_clos = { VF_DS_MAGIC };
 static int tokcmp(const void *a, const void *b) { return memcmp(a, b, 2); }
 /* values are sequences of 2-byte tokens; merge = sorted multiset union (order-free, so any fold order gives the same bytes) */
 void vf_merge_union(void *clos, const uint8_t *key, size_t lk, const uint8_t *v0, size_t l0, const uint8_t *v1, size_t l1,
 		    uint8_t **out, size_t *lout)
 {
 	struct mstate *st = clos;
+	if (st == (void *)&vf_ds_clos) { static int said; if (!said++) printf("#!merge callback called with the dupsort closure\n"); st = NULL; }
 	if (st) {
 		st->calls++;
 		if (st->mode == 1 && lk == st->lfk && memcmp(key, st->failkey, lk) == 0) { *out = NULL; *lout = 0; return; }
@@ -38,7 +43,8 @@ void vf_merge_union(void *clos, const uint8_t *key, size_t lk, const uint8_t *v0
 }
 int vf_dupsort(void *clos, const uint8_t *key, size_t lk, const uint8_t *v0, size_t l0, const uint8_t *v1, size_t l1)
 {
-	(void)clos; (void)key; (void)lk;
+	(void)key; (void)lk;
+	if (clos != &vf_ds_clos) { static int said; if (!said++) printf("#!dupsort callback called with a closure that is not the one configured for it\n"); }
 	size_t l = l0 < l1 ? l0 : l1; int r = memcmp(v0, v1, l);
 	if (r) return r;
 	return l0 < l1 ? -1 : l0 > l1 ? 1 : 0;
@@ -147,7 +153,7 @@ int ops_merger(char **args, int na)
 		if (mg && !strcmp(mg, "union")) { a->st.mode = 0; mtbl_merger_options_set_merge_func(a->mo, vf_merge_union, &a->st); }
 		else if (mg && !strcmp(mg, "lcp")) { a->st.mode = 2; mtbl_merger_options_set_merge_func(a->mo, vf_merge_union, &a->st); }
 		else if (mg && !strncmp(mg, "fail:", 5)) { a->st.mode = 1; if (unhex(mg + 5, &a->st.failkey, &a->st.lfk)) return -1; mtbl_merger_options_set_merge_func(a->mo, vf_merge_union, &a->st); }
-		if (kvnum(args + 2, na - 2, "dupsort", 0)) mtbl_merger_options_set_dupsort_func(a->mo, vf_dupsort, NULL);
+		if (kvnum(args + 2, na - 2, "dupsort", 0)) mtbl_merger_options_set_dupsort_func(a->mo, vf_dupsort, &vf_ds_clos);
 		o->p = mtbl_merger_init(a->mo);
 		puts("ok"); return 0;
 	}
